@@ -446,12 +446,22 @@ def gen_stream_cmd(rng, m, db):
     if c == "DEL":
         return [b"DEL", k] if rng.random() < 0.3 else [b"XLEN", k]
     if c == "BADID":
-        bad = rng.choice([b"abc", b"1-2-3", b"1.5-0", b"x-1", b"1-x", b"1_0"])
-        which = rng.choice(["XADD", "XRANGE", "XDEL"])
+        # not IDs at all, and numbers one past the 64-bit range of either half (a parser that wraps
+        # turns them into small valid IDs: an entry stored under another ID, a bound somewhere else)
+        bad = rng.choice([b"abc", b"1-2-3", b"1.5-0", b"x-1", b"1-x", b"1_0",
+                          b"18446744073709551616-0", b"18446744073709551617-1", b"5-18446744073709551616",
+                          b"18446744073709551621-0", b"99999999999999999999999-1", b"36893488147419103237-3"])
+        which = rng.choice(["XADD", "XRANGE", "XRANGE-hi", "XREVRANGE", "XREAD", "XDEL"])
         if which == "XADD":
             return [b"XADD", k, bad, b"f", b"v"]
         if which == "XRANGE":
             return [b"XRANGE", k, bad, b"+"]
+        if which == "XRANGE-hi":
+            return [b"XRANGE", k, b"-", bad]
+        if which == "XREVRANGE":
+            return [b"XREVRANGE", k, bad, b"-"]
+        if which == "XREAD":
+            return [b"XREAD", b"STREAMS", k, bad]
         return [b"XDEL", k, bad]
     name = rng.choice([b"XADD", b"XLEN", b"XRANGE", b"XREVRANGE", b"XDEL", b"XTRIM", b"XREAD"])
     return [name] + [k for _ in range(rng.choice([0, 1, 2]))]
